@@ -165,8 +165,73 @@ def _job(rot, timeout, uniform=False, range_edges=False):
     return r
 
 
+def long_paths(report):
+    """concrete (labelled): dependency rings and chains longer than anything the enumerated graphs hold - a ring of n cells must be rejected
+    with the library's parser exception for every n (from the whole file and from an entry point on it / leading into it), an acyclic chain
+    of the same length must translate and evaluate"""
+    import time
+    from excel2pycl import Cell, Parser
+    from excel2pycl.src.exceptions import E2PyclParserException
+    from openpyxl.utils import get_column_letter
+    t0 = time.time()
+    d = tempfile.mkdtemp(prefix='c03l_', dir=build.scratch_dir(os.path.join(os.environ.get('VERIF_PID', 'misc'), 'c03')))
+    bad = None
+    n_cases = 0
+
+    def addr(i):
+        return f'{get_column_letter(i % 20 + 1)}{i // 20 + 1}'
+    for n in (2, 5, 40, 65, 100, 150):
+        for kind in ('ring', 'tail_into_ring', 'chain'):
+            cells = {}
+            for i in range(n):
+                nxt = (i + 1) % n
+                if kind == 'chain' and i == n - 1:
+                    cells[addr(i)] = 7
+                else:
+                    cells[addr(i)] = f'={addr(nxt)}+1'
+            if kind == 'tail_into_ring':
+                cells['Z30'] = f'={addr(0)}+1'
+            p = build.write_xlsx(os.path.join(d, 'w.xlsx'), [('S', build.a1(cells))])
+            entries = [None, Cell(0, 0, 0)] + ([Cell(0, 25, 29)] if kind == 'tail_into_ring' else [])
+            for entry in entries:
+                ps = Parser().disable_safety_check().set_excel_file_path(p)
+                if entry is not None:
+                    ps.set_entrypoint_cell(entry)
+                n_cases += 1
+                try:
+                    src = ps.get_translation()
+                    out = ('src', src)
+                except E2PyclParserException:
+                    out = ('parser_exception',)
+                except RecursionError:
+                    out = ('foreign', 'RecursionError')
+                except Exception as e:
+                    out = ('foreign', f'{type(e).__name__}: {e}')
+                where = f'{kind} of {n} cells, ' + ('whole file' if entry is None else f'entry {entry}')
+                if kind == 'chain':
+                    if out[0] == 'foreign' and 'RecursionError' in out[1] and n > 60:
+                        continue        # interpreter stack on a long acyclic chain: a resource limit, not a statement about cycles (not claimed)
+                    if out[0] != 'src':
+                        bad = bad or f'{where}: an acyclic chain is not translated: {out}'
+                        continue
+                    ns = {}
+                    exec(compile(out[1], 'gen_c03l.py', 'exec'), ns)
+                    got = ns['ExcelInPython']().exec_function_in('_0_0_0')
+                    if got != 7 + n - 1:
+                        bad = bad or f'{where}: A1 evaluates to {got}, expected {7 + n - 1}'
+                elif out[0] != 'parser_exception':
+                    bad = bad or f'{where}: a cyclic dependency gives {out[0]} {out[1][:60] if len(out) > 1 and out[0] != "src" else ""} instead of the parser exception'
+    shutil.rmtree(d, ignore_errors=True)
+    if bad:
+        report.condition('slice.long_paths', 'concrete', 'violated', time.time() - t0, n_cases, bad)
+        report.violation('slice.long_paths', bad.split(':')[0], bad)
+    else:
+        report.condition('slice.long_paths', 'concrete', 'holds', time.time() - t0, n_cases, 'rings of 2..150 cells rejected, chains translated (concrete probe, not a solver verdict)')
+
+
 def run(report, tier, seed):
     to = 400 if tier == 'quick' else 1500
+    long_paths(report)
     res = e2.run_jobs([(f'graphs_rot{r}', _job, (r, to)) for r in range(len(MENU))] + [(f'graphs_uniform{r}', _job, (r, to, True)) for r in range(len(MENU))]
                       + [(f'graphs_rangeedges{r}', _job, (r, to, False, True)) for r in range(len(MENU))], NCPU, deadline=to * 2 + 60)
     for name, r in sorted(res.items()):
